@@ -106,7 +106,7 @@ func TestVerifC07(t *testing.T) {
 	for _, k := range []string{"500-x3", "neterr-x3", "500-then-ok"} {
 		faults = append(faults, fault{"upload", k})
 	}
-	for _, k := range []string{"open-garbage", "open-unreachable", "data-garbage", "data-unknown", "poll-unknown", "close-unknown", "poll-garbage"} {
+	for _, k := range []string{"open-garbage", "open-unreachable", "open-unreachable-then-use", "open-refused-then-use", "data-garbage", "data-unknown", "poll-unknown", "close-unknown", "poll-garbage"} {
 		faults = append(faults, fault{"shim", k})
 	}
 	configs := []string{"plain", "shim+sessions"}
@@ -182,9 +182,12 @@ func TestVerifC07(t *testing.T) {
 				switch f.Kind {
 				case "open-garbage":
 					raw = mkReq("POST", "/verifshim/open", "%zz\x00")
-				case "open-unreachable":
+				case "open-unreachable", "open-unreachable-then-use":
 					handler = hpDead
 					raw = mkReq("POST", "/verifshim/open", "ws://x/ws")
+				case "open-refused-then-use":
+					// the healthy backend answers the websocket handshake with a plain HTTP response
+					raw = mkReq("POST", "/verifshim/open", "ws://x/ok/not-a-websocket")
 				case "data-garbage":
 					raw = mkReq("POST", "/verifshim/data", "{{{")
 				case "data-unknown":
@@ -246,6 +249,38 @@ func TestVerifC07(t *testing.T) {
 				allUploads = append(allUploads, fpF.uploads...)
 				fpF.mu.Unlock()
 			}
+			// a failed open followed by calls naming the session IDs it may have been given
+			followup := []int{}
+			if strings.HasSuffix(f.Kind, "-then-use") {
+				fpG := newVerifFakeProxy()
+				var gids []string
+				for n := 1; n <= 40; n++ {
+					for _, ep := range []string{"poll", "data", "close"} {
+						gid := fmt.Sprintf("%s-use-%s-%d", fid, ep, n)
+						body := fmt.Sprintf(`{"id":"%d"}`, n)
+						if ep == "data" {
+							body = fmt.Sprintf(`{"id":"%d","msg":"x"}`, n)
+						}
+						fpG.addRequest(gid, "u@example.com", mkReq("POST", "/verifshim/"+ep, body), nil)
+						gids = append(gids, gid)
+					}
+				}
+				fpG.lists = [][]string{gids}
+				ctxG, cancelG := context.WithCancel(context.Background())
+				fpG.afterList = cancelG
+				doneG := make(chan struct{})
+				go func() {
+					pollForNewRequests(ctxG, &http.Client{Transport: fpG}, handler, "verif-backend")
+					close(doneG)
+				}()
+				<-doneG
+				fpG.quiesce(300*time.Millisecond, 15*time.Second, func() bool { fpG.mu.Lock(); defer fpG.mu.Unlock(); return len(fpG.uploads) >= len(gids) })
+				fpG.mu.Lock()
+				for _, u := range fpG.uploads {
+					followup = append(followup, u.Status)
+				}
+				fpG.mu.Unlock()
+			}
 			fp.mu.Lock()
 			allUploads = append(allUploads, fp.uploads...)
 			probeOK := map[string]bool{}
@@ -262,7 +297,7 @@ func TestVerifC07(t *testing.T) {
 				}
 			}
 			fp.mu.Unlock()
-			res := map[string]interface{}{"kind": "fault", "config": config, "fault": f, "fault_upload_status": faultStatus}
+			res := map[string]interface{}{"kind": "fault", "config": config, "fault": f, "fault_upload_status": faultStatus, "followup_statuses": followup}
 			for name, ids := range map[string][]string{"before": before, "during": during, "after": after} {
 				ok := 0
 				for _, id := range ids {
